@@ -12,7 +12,7 @@ ID = 'C04'
 LEVEL = 'exploration'
 RULE = ('histories T0->...->Tn (n<=8) under one virtual path with diff_cache=True: line delete/duplicate/replace, in-line '
         'fragment insertion, block delete/indent/dedent/move, undo to an earlier text, BOM toggle, final-newline / newline-'
-        'style toggle, over corpus slices (70%) and garbage (30%), versions cycled; after every step the returned module '
+        'style toggle, template-line insertion, over corpus slices (45%), structured template programs (35%) and garbage (20%), versions cycled; after every step the returned module '
         'is compared with a fresh parse of that text: signature (class,type,value,prefix,start,end,token type), parent '
         'links, get_code(), get_used_names() (queried on the cached module before each update); update must not raise. '
         'non-trivial = distinct step in which the diff parser both copied and re-parsed nodes, or that crossed an error node')
@@ -137,8 +137,11 @@ def _run_history(ctx, v, hist, hid):
 
 
 def make_history(rng, files):
-    if rng.random() < .7:
+    r = rng.random()
+    if r < .45:
         base = G.corpus_slice(rng, files, inject=(0, 1))
+    elif r < .8:
+        base = G.structured_program(rng)
     else:
         base = G.mixed(rng)
     hist = [base]
